@@ -298,15 +298,15 @@ def h_assembler_identity(c, n):
 REACH = {"tree_resample": ["furcation", "root_with_one_child"], "assembler_identity": ["root_with_one_child"], "isometric": ["three_or_more_points"], "smooth_tree": ["interior_node"]}
 HARNESSES = [
     H("linear", h_linear, quick=[dict(m=2, n=3, dims=3), dict(m=3, n=2, dims=1), dict(m=3, n=3, dims=1), dict(m=3, n=4, dims=1), dict(m=3, n=3, dims=2)],
-      thorough=[dict(m=4, n=k, dims=1) for k in (2, 3, 4, 5)] + [dict(m=3, n=4, dims=2), dict(m=3, n=3, dims=3)], functions=FUNCTIONS,
-      bounds="branches of m<=3 points resampled to n<=4 points on a line, m=3,n=3 in the plane, m=2 in 3-D (quick); m=4 on a line, m=3 in 2-D/3-D (thorough); coordinates any reals incl. zero-length segments and polylines that turn back"),
+      thorough=[dict(m=2, n=3, dims=3), dict(m=3, n=2, dims=1), dict(m=3, n=3, dims=1), dict(m=3, n=4, dims=1), dict(m=3, n=3, dims=2), dict(m=4, n=3, dims=1), dict(m=3, n=5, dims=1)], functions=FUNCTIONS,
+      bounds="branches of m<=3 points resampled to n<=4 points on a line, m=3,n=3 in the plane, m=2 in 3-D (quick); m=4 on a line resampled to 3 points, m=3 to 5 points (thorough); coordinates any reals incl. zero-length segments and polylines that turn back"),
     H("isometric", h_isometric, quick=[dict(m=2, dims=1, adjust=True), dict(m=3, dims=1, adjust=True), dict(m=3, dims=1, adjust=False), dict(m=2, dims=3, adjust=True)],
-      thorough=[dict(m=4, dims=1, adjust=True), dict(m=4, dims=1, adjust=False), dict(m=3, dims=2, adjust=True)], functions=FUNCTIONS, expect_outside=True, replay_outside=True,
-      bounds="branches of m<=3 (quick) / 4 (thorough) points on a line, m=2 in 3-D / m=3 in 2-D, spacing any d>0 with L<=3d, adjust_last_gap on/off"),
+      thorough=[dict(m=2, dims=1, adjust=True), dict(m=3, dims=1, adjust=True), dict(m=3, dims=1, adjust=False), dict(m=2, dims=3, adjust=True), dict(m=4, dims=1, adjust=True)], functions=FUNCTIONS, expect_outside=True, replay_outside=True,
+      bounds="branches of m<=3 (quick) / 4 (thorough) points on a line, m=2 in 3-D, spacing any d>0 with L<=3d, adjust_last_gap on/off"),
     H("smooth_branch", h_smooth_branch, quick=[dict(m=m, win=w, dims=2) for m in (2, 3, 4) for w in (1, 2, 3, 5)], thorough=[dict(m=5, win=w, dims=3) for w in (1, 2, 3, 4, 5, 7)], functions=FUNCTIONS,
       bounds="branches of m<=4 (quick) / 5 (thorough) points, windows {1,2,3,5} / {1,2,3,4,5,7}"),
-    H("smooth_tree", h_smooth_tree, quick=[dict(n=3, win=3), dict(n=4, win=3), dict(n=4, win=5)], thorough=[dict(n=5, win=w) for w in (2, 3, 5)], functions=FUNCTIONS, bounds="every numbering of every tree with n<=4/5 nodes in the plane"),
+    H("smooth_tree", h_smooth_tree, quick=[dict(n=3, win=3), dict(n=4, win=3), dict(n=4, win=5)], thorough=[dict(n=3, win=3), dict(n=4, win=3), dict(n=4, win=5), dict(n=5, win=3)], functions=FUNCTIONS, bounds="every numbering of every tree with n<=4/5 nodes in the plane"),
     H("assembler_identity", h_assembler_identity, quick=[dict(n=k) for k in (1, 2, 3, 4)], thorough=[dict(n=5)], functions=FUNCTIONS, bounds="every numbering of every tree with n<=4/5 nodes in the plane"),
-    H("tree_resample", h_tree_resample, quick=[dict(n=2, adjust=True), dict(n=3, adjust=True), dict(n=3, adjust=False)], thorough=[dict(n=4, adjust=True), dict(n=4, adjust=False)], functions=FUNCTIONS, expect_outside=True, replay_outside=True,
-      bounds="every numbering of every tree with n<=3 (quick) / 4 (thorough) nodes on a line, root typed soma or not, spacing any d>0 with every branch length <= 3d"),
+    H("tree_resample", h_tree_resample, quick=[dict(n=2, adjust=True), dict(n=3, adjust=True), dict(n=3, adjust=False)], thorough=[dict(n=2, adjust=True), dict(n=2, adjust=False), dict(n=3, adjust=True), dict(n=3, adjust=False)], functions=FUNCTIONS, expect_outside=True, replay_outside=True,
+      bounds="every numbering of every tree with n<=3 nodes on a line (n=4 is beyond the time budget), root typed soma or not, spacing any d>0 with every branch length <= 3d"),
 ]
